@@ -165,14 +165,15 @@ def _render_simple(p, r, variant):
             e = e.upper()
         return e
     if k == "not":
-        n = "not" if not variant else r.choice(["not", "NOT", "Not"])
+        n = "not" if not variant else r.choice(["not", "NOT", "Not", "n\\ot", "\\6e ot"])
         inner = _render_simple(p[1], r, 0)
         pad = "" if not variant else r.choice(["", " "])
         return f":{n}({pad}{inner}{pad})"
     raise ValueError(k)
 
 
-INVALID = ["a >", "1a", "a[", ":not(", "a..b", "", " ", "a::", "#", ".", "a b >", "[=v]", "a:not()", ">", "a,, b"]
+INVALID = ["a >", "1a", "a[", ":not(", "a..b", "", " ", "a::", "#", ".", "a b >", "[=v]", "a:not()", ">", "a,, b",
+           ":not(a b)", "[[a]#d=b]", "[a>x#i[b]=c]", ":not(.a)b", "div:nth-child(2n)span", ":lang(fr)*", ":not(foo(a)", "x:nth-child(foo(2n+1)", "a:not(.b)|c"]
 
 
 def config(rs, run, tier):
